@@ -466,6 +466,7 @@ def classify(src, r):
 def run(ctx, model_ok):
     rng = ctx.rng
     thorough = ctx.tier == "thorough"
+    L.run_stream(ctx, "corpus", L.corpus_scripts("C14"), model_ok, classify=classify)
     nroutes, maxsteps = (800000, 7) if thorough else (30000, 5)
     done = 0
     while done < nroutes:
